@@ -2,7 +2,7 @@
 object (contracts/datawrap.py) and filters that (contracts/conditions.py); Key / Index conditions refuse the wrong
 container kind with TypeError."""
 from pyvc.contracts import contract, ListVal, DictVal, Const
-from spec.prims import same, forall_idx, is_fresh
+from spec.prims import same, forall_idx, is_fresh, fst, snd
 from spec.meaning import Meaning
 import valida.conditions as cnds
 import valida.data
@@ -64,4 +64,24 @@ contract(
     raises={"TypeError": lambda data, _kind: _kind in ("dict", "scalar", "wrapped-map") or (_kind == "list" and len(data) == 0)},
     serves=["C01", "C03", "C07"],
     note="an index condition filters the positions of a list and refuses anything else with TypeError",
+)
+
+
+# ------------------------------------------------------------------------------------------ the rule-test entry (C05)
+contract(
+    "valida.conditions:ConditionLike.filter#paths",
+    variants=[dict(self=LeafShape(c)) for c in (cnds.Value, cnds.ValueLength, cnds.ValueDataType, cnds.NullCondition)],
+    params=dict(data=ListVal(), data_has_paths=Const(True), source_data=Const(None)),
+    requires=lambda data:
+        len(data) > 0 and forall_idx(len(data), lambda j: isinstance(data[j], tuple) and len(data[j]) == 2),
+    ensures=lambda self, data, result:
+        type(result) is valida.data.FilteredData
+        and len(result.result) == len(data) and len(result.concrete_paths) == len(data) and len(result.source._values) == len(data)
+        and forall_idx(len(data), lambda j: same(result.result[j], Meaning(self, fst(data[j])))
+                       and same(result.source._values[j], fst(data[j])) and same(result.concrete_paths[j], snd(data[j]))),
+    raises={},
+    fuel=True,
+    serves=["C05"],
+    note="what RuleTest._test calls: the leaf case of the `cond.filter` interface (one verdict per selected node = the "
+         "condition's meaning on the node; values and concrete paths split and aligned)",
 )
